@@ -30,7 +30,6 @@ REQUIRED_FAST = [
     "Pixman.Props.C08Fast.rotate90_reference_row",
     "Pixman.Props.C08Fast.rotate270_reference_row",
     "Pixman.Props.C08Fast.fast_bilinear_cover_eq_partial",
-    "Pixman.Props.C08Fast.bilinear_scanline_coords_partial",
 ]
 
 REQUIRED_LOOPS = [
@@ -43,6 +42,20 @@ REQUIRED_LOOPS = [
     "Pixman.Props.C08Loops.bilinear_none_row_taps",
     "Pixman.Props.C08Loops.bilinear_zones",
     "Pixman.Props.C08Loops.bilinear_vertical_spec",
+]
+
+REQUIRED_SCALED = [
+    "Pixman.Props.C08Scaled.bilinear_hpair",
+    "Pixman.Props.C08Scaled.bilinear_vpair",
+    "Pixman.Props.C08Scaled.bilinear_dy0",
+    "Pixman.Props.C08Scaled.sse2_zero_top",
+    "Pixman.Props.C08Scaled.sse2_zero_bottom",
+    "Pixman.Props.C08Scaled.pixel_compose",
+    "Pixman.Props.C08Scaled.row_compose",
+    "Pixman.Props.C08Scaled.row_compose_same",
+    "Pixman.Props.C08Scaled.normalStep_taps",
+    "Pixman.Props.C08Scaled.normalLoop_taps",
+    "Pixman.Props.C08Scaled.fast_bilinear_scanline_eq_partial",
 ]
 
 REQUIRED = [
@@ -300,8 +313,8 @@ def report(ctx, findings, limit=10):
 
 
 def run(ctx):
-    broken = ctx.lean_obligations("Pixman.Props.C08", REQUIRED + REQUIRED_FAST + REQUIRED_LOOPS + ["Pixman.Props.C02Cover.fast_bilinear_cover_eq"],
-                                  extra_modules=["Pixman.Props.C08Fast", "Pixman.Props.C02Cover", "Pixman.Props.C08Loops"])
+    broken = ctx.lean_obligations("Pixman.Props.C08", REQUIRED + REQUIRED_FAST + REQUIRED_LOOPS + REQUIRED_SCALED + ["Pixman.Props.C02Cover.fast_bilinear_cover_eq"],
+                                  extra_modules=["Pixman.Props.C08Fast", "Pixman.Props.C02Cover", "Pixman.Props.C08Loops", "Pixman.Props.C08Scaled"])
     quick = ctx.tier == "quick"
     findings = run_streams(ctx, 8000 if quick else 40000, 16 if quick else 48)
     report(ctx, findings)
